@@ -184,3 +184,14 @@ PROPS["C10"] = dict(
             dict(name="trace", kind="trace", module="SampleTrace.tla", cfg="SampleTrace.cfg",
                  record_args={"quick": ["-n", 120, "-max", 60, "-ops", 30, "-funcs", "quantile"], "thorough": ["-n", 3000, "-max", 200, "-ops", 40, "-funcs", "quantile"]})],
 )
+
+PROPS["C06"] = dict(
+    family="ddist", specdir="ddist",
+    technique="TLA+ definition of the binomial and hypergeometric distributions as exact BigInt mass vectors (sum, moment and symmetry identities checked by TLC), enumerated over parameter grids and compared with PMF/CDF/Bounds/Step/Mean/Variance/NormalApprox of the real distributions",
+    level_text="TLC enumerates every Binomial(N, a/20) with N <= 20 (thorough: N <= 60 and N = 100 on a/100) plus P within 1e-12 of 0 and 1 (N <= 8), and every Hypergeometric(N, K, Draws) with 2 <= N <= 16 (thorough <= 40, plus 50 and 64), computes the mass vectors in BigInt and checks that they sum to the denominator, that the first two moments equal the closed forms and the K/Draws symmetry; the binder evaluates PMF and CDF at every integer from 3 below to 3 above the support and at half-integers (floor semantics) against the exact rationals (1e-10), and Bounds, Step, Mean, Variance, NormalApprox",
+    level_note="Trusted: TLC, binder comparison code. The float P passed to BinomialDist is the float nearest a/b (effect on any mass <= N 2^-53). N = 1000 is not reached (BigInt rows of that size are too slow in TLC); the thorough tier stops at N = 100.",
+    stages=[dict(name="gen", kind="gen", module="DiscDist.tla", cfg="DiscDist_gen.cfg",
+                 consts=dict(BinN={"quick": "BinNQuick", "thorough": "BinNThorough"}, EdgeMaxN=8,
+                             BinP={"quick": "BinPQuick", "thorough": "BinPThorough"},
+                             HypN={"quick": "HypNQuick", "thorough": "HypNThorough"}), timeout={"quick": 600, "thorough": 7000})],
+)
